@@ -495,7 +495,8 @@ def obligations(tier):
             for op in ("with", "with_index", "with_insert", "update", "transform", "without"):
                 if fam == "lazy" and attr != "nums":
                     continue
-                obs.append(Ob(f"C06.{fam}.list.{attr}.{op}", make_list_step(fam, attr, sing, op, nmax, elem), _warm_list(nmax), f"K2.{attr} (List[{elem}]); helper family {op}; content length <= {nmax} with symbolic {'ints (equal elements and 0 included)' if elem == 'int' else 'strings from {\"\",a,b}'}; index/address in [-n-1,n+1] or a value; _by_index in {{default,True,False}}; _inplace symbolic; container missing symbolic (no-default attrs)", expect={"ok"}, timeout=T))
+                nm = 3 if (attr == "nums" and op in ("without", "update", "transform", "with_index")) else nmax  # >= 3 elements: equal elements around the addressed one
+                obs.append(Ob(f"C06.{fam}.list.{attr}.{op}", make_list_step(fam, attr, sing, op, nm, elem), _warm_list(nm), f"K2.{attr} (List[{elem}]); helper family {op}; content length <= {nm} with symbolic {'ints (equal elements and 0 included)' if elem == 'int' else 'strings from {\"\",a,b}'}; index/address in [-n-1,n+1] or a value; _by_index in {{default,True,False}}; _inplace symbolic; container missing symbolic (no-default attrs)", expect={"ok"}, timeout=T))
         for attr, sing in (("opts", "opt"), ("flags", "flag")):
             for op in ("with", "update", "transform", "without"):
                 obs.append(Ob(f"C06.{fam}.dict.{attr}.{op}", make_dict_step(fam, attr, sing, op, nmax), _warm_dict(nmax), f"K2.{attr} (Dict[str,int]); {op}; <= {nmax} entries, keys from {DKEYS}; addressed key existing or fresh; values symbolic ints; _inplace symbolic; container missing symbolic", expect={"ok"}, timeout=T))
